@@ -342,7 +342,7 @@ theorem not_lower_upper (c : Nat) : isLowerC (upperC c) = false := by
   · simp only [hl, ↓reduceIte]
     simp only [isLowerC, Bool.and_eq_true, decide_eq_true_eq] at hl
     simp only [isLowerC, Bool.and_eq_false_iff, decide_eq_false_iff_not]; omega
-  · simpa [hl] using hl
+  · simp [hl]
 
 theorem lowerAscii_no_upper (g : Str) (h : lowerAsciiStr g = true) : g.any isUpperC = false := by
   induction g with
